@@ -176,7 +176,10 @@ func (s *Server) serve(ctx context.Context) {
 			}
 		} else {
 			tempDelay = 0
-			go s.startSession(sessionID, conn, log.Logger)
+			// Register the session before its goroutine starts, so that Drain cannot return
+			// between Accept and the start of the session.
+			s.wg.Add(1)
+			go s.runSession(sessionID, conn, log.Logger)
 		}
 	}
 }
